@@ -108,3 +108,44 @@ Definition guard_examples_stmt : Prop :=
   fit_guard (mk_gin GNone 6 3 2 2 None) = Accept.
 Example guard_examples : guard_examples_stmt.
 Proof. repeat split. Qed.
+
+(* ---- svd_solver resolution -------------------------------------------------------------------- *)
+(* small problems (max(n_samples, n_features) <= 500, the bound INCLUDED) always get the full SVD *)
+Theorem auto_small_is_full n d k : Z.max n d <= 500 -> resolve_solver SAuto n d k = SFull.
+Proof.
+  intros H. unfold resolve_solver.
+  destruct (Z.max n d <=? 500) eqn:E; [reflexivity | apply Z.leb_gt in E; lia].
+Qed.
+
+(* above 500: randomized iff 1 <= k < 0.8 * max(n, d), otherwise full; never anything else *)
+Theorem auto_large_spec n d k :
+  500 < Z.max n d ->
+  (resolve_solver SAuto n d k = SRandomized <-> 1 <= k /\ 5 * k < 4 * Z.max n d) /\
+  (resolve_solver SAuto n d k = SFull <-> ~ (1 <= k /\ 5 * k < 4 * Z.max n d)).
+Proof.
+  intros H. unfold resolve_solver.
+  destruct (Z.max n d <=? 500) eqn:E; [apply Z.leb_le in E; lia |].
+  destruct (1 <=? k) eqn:E1; destruct (5 * k <? 4 * Z.max n d) eqn:E2; cbn [andb];
+    try apply Z.leb_le in E1; try apply Z.leb_gt in E1;
+    try apply Z.ltb_lt in E2; try apply Z.ltb_ge in E2;
+    (split; split; intro Hx); try discriminate; try reflexivity; try lia; try (exfalso; apply Hx; lia).
+Qed.
+
+(* an explicit svd_solver is kept, and the resolved solver is never "auto" *)
+Theorem explicit_solver_kept s n d k :
+  (s <> SAuto -> resolve_solver s n d k = s) /\ resolve_solver s n d k <> SAuto.
+Proof.
+  split.
+  - destruct s; intros H; try reflexivity; contradiction.
+  - destruct s; try (cbn [resolve_solver]; discriminate).
+    unfold resolve_solver.
+    destruct (Z.max n d <=? 500); [discriminate |].
+    destruct ((1 <=? k) && (5 * k <? 4 * Z.max n d)); discriminate.
+Qed.
+
+Definition solver_examples_stmt : Prop :=
+  resolve_solver SAuto 499 3 4 = SFull /\ resolve_solver SAuto 500 3 4 = SFull /\
+  resolve_solver SAuto 501 3 4 = SRandomized /\ resolve_solver SAuto 5 501 3 = SRandomized /\
+  resolve_solver SAuto 501 3 401 = SFull /\ resolve_solver SArpack 6 3 2 = SArpack.
+Example solver_examples : solver_examples_stmt.
+Proof. repeat split. Qed.
